@@ -294,6 +294,28 @@ def touchedReq (m : Mon) (cc : World.CliConf) (sc : World.SrvConf) (t : UInt8) :
   t = 80 || t = 2 || t = 60 || (t = 1 && cc.rwUser.isSome) ||
   (if m.cfg.opts.ttlType.2 = 256 then t.toNat = m.cfg.opts.ttlType.1 else t = 26)
 
+/-- C01 on the supplement rule form: an attribute a rewrite block supplements (plain type, nothing else in either block touching
+    that type, no TTL/hidden/signature role) is in the forwarded request with exactly the configured value when the client's packet
+    lacked it -/
+def supplementOk (m : Mon) (cc : World.CliConf) (sc : World.SrvConf) (inp out : Bytes) : Bool :=
+  let one (rw other : Option Rewrite.Rewrite) : Bool :=
+    match rw with
+    | none => true
+    | some r =>
+      (r.supAttrs.getD []).all fun a =>
+        let t := a.t
+        let quiet (x : Option Rewrite.Rewrite) (self : Bool) : Bool := match x with
+          | none => true
+          | some y => !y.whitelist && !(y.rmAttrs.getD []).contains t && !((y.modAttrs.getD []).any (·.t = t)) &&
+                      !((y.addAttrs.getD []).any (·.t = t)) && (self || !((y.supAttrs.getD []).any (·.t = t)))
+        -- only judged where nothing else has a say about this type
+        if t = 26 || t = 80 || t = 2 || t = 60 || t = 1 || t = 0 || a.v.length > 253 || !quiet (some r) true || !quiet other false ||
+           ((r.supAttrs.getD []).filter (·.t = t)).length ≠ 1 ||
+           (if m.cfg.opts.ttlType.2 = 256 then t.toNat = m.cfg.opts.ttlType.1 else false) then true
+        else if (attrsOf inp).any (·.1 = t) then true
+        else ((attrsOf out).filter (·.1 = t)) == [(t, a.v)]
+  one cc.rwIn sc.rwOut && one sc.rwOut cc.rwIn
+
 def frameOk (m : Mon) (cc : World.CliConf) (sc : World.SrvConf) (inp out : Bytes) : Bool :=
   -- (an Access-Request gets its Message-Authenticator through `ensuremsgauthfront`, whose removal list {80} is searched with strchr:
   --  the reserved attribute type 0 matches the terminator and goes too - modelled as such, DESIGN §8 "observed")
@@ -393,7 +415,14 @@ def monOp0 (m : Mon) (op : String) (args : List String) (impl : List String) (tr
   match op, args with
   | "cfg", _ :: toks =>
     match toks.foldlM parseCfgTok ({} : CfgAcc) with
-    | some a => (resync { cfg := a } out, if (headToks out).head? == some "ok" then "ok" else "bad cfg-rejected")
+    | some a =>
+      let v :=
+        if (headToks out).head? != some "ok" then "bad cfg-rejected"
+        -- C18: the Calling-Station-Id is shown the way the configuration's LogMAC / FTicksMAC say (the mode each was understood as)
+        else if a.macopts != "" && !(headToks out).contains a.macopts.trimAscii.toString then
+          "bad C18:LogMAC-FTicksMAC-FTicksReporting-of-the-configuration-not-taken-as-written:" ++ (((headToks out).find? (·.startsWith "macopts:")).getD "-") ++ "-expected-" ++ a.macopts.trimAscii.toString
+        else "ok"
+      (resync { cfg := a } out, v)
     | none => (m, "bad-op")
   | "client", [name] => ({ m with clientConf := m.clientConf ++ [name], qlen := m.qlen ++ [0] }, "ok")
   | "rq", [k, pkt] =>
@@ -429,6 +458,12 @@ def monOp0 (m : Mon) (op : String) (args : List String) (impl : List String) (tr
           if staleRepeat && !newerSameId && !tablesFull && fwdToks.isEmpty && cc.dup ≠ 0 &&
              !(m.recv.any fun (j, p) => j = k && idOf p == idOf pkt && p != pkt) then
             "bad C10:request-repeated-at-or-after-DuplicateInterval-not-treated-as-new"
+          -- C10: the very packet that was forwarded less than DuplicateInterval ago, with no other request under its identifier
+          -- since, is a retransmission: never forwarded again (whatever has meanwhile become of the forwarded copy)
+          else if !fwdToks.isEmpty && cc.dup ≠ 0 &&
+                  (m.fwdAt.any fun (j, p, t) => j = k && p == pkt && decide (m.now < t + cc.dup)) &&
+                  ((m.recv.find? fun (j, p) => j = k && idOf p == idOf pkt).any fun (_, p) => p == pkt) then
+            "bad C10:retransmission-within-DuplicateInterval-forwarded-again"
           else if tablesFull && fwdToks.isEmpty && !qgrew && acceptable && !seenIdBefore && cachedIds.contains (idOf pkt).toNat then
             "bad C11:request-kept-in-the-duplicate-cache-though-no-identifier-was-free"
           else if (!fwdToks.isEmpty || qgrew) && !acceptable then "bad C05:unacceptable-request-forwarded-or-answered"
@@ -467,6 +502,7 @@ def monOp0 (m : Mon) (op : String) (args : List String) (impl : List String) (tr
                  else if !requestOk H sc.secret b then "bad C06:forwarded-request-malformed-or-unauthenticated"
                  else if codeOf b != codeOf pkt then "bad C01:code-changed"
                  else if !frameOk m cc sc pkt b then "bad C01:untouched-attributes-not-preserved"
+                 else if !supplementOk m cc sc pkt b then "bad C01:supplemented-attribute-missing-or-not-the-configured-value"
                  else if World.loopPrevents m.cfg.opts cc sc then "bad C13:request-forwarded-back-to-the-peer-it-came-from"
                  else if (attrsOf pkt).any (·.1 = 3) && !(attrsOf pkt).any (·.1 = 60) &&
                          ![cc.rwIn, sc.rwOut].any (fun r => rwTouches r 3 || rwTouches r 60) &&
@@ -888,6 +924,20 @@ def monOp (m : Mon) (op : String) (args : List String) (impl : List String) (trT
       (m, if n = "-1" then "bad sanitizer-or-crash" else "bad C19:crash-or-sanitizer-report-while-an-allocation-failed")
     else
     let impl' := (impl.drop 1).filter fun t => !(t.startsWith "allocs:") && !(t.startsWith "live:")
+    if iop = "tlsstream" || iop = "tcpstream" then
+      -- C16/C19: whatever fails to be allocated while a stream is read, what is handed on as packets are the stream's own packets, in
+      -- order, from the first on: never octets from the middle of a message taken for a packet
+      (match iargs with
+       | _ :: _ :: evs =>
+         (match parseEvs evs with
+          | some evs =>
+            let stream := Stream.dataOf evs
+            let frames := (Stream.framesOut (stream.length + 1) stream).filterMap fun | .pkt b => some b | _ => none
+            let got := impl'.filterMap fun t => if t.startsWith "pkt:" then ofHex (t.drop 4).toString else none
+            (m, if got == frames.take got.length then "ok" else "bad C16:octets-from-inside-a-message-processed-as-a-packet-after-an-allocation-failed")
+          | none => (m, "bad-op"))
+       | _ => (m, "bad-op"))
+    else
     match impl'.find? (·.startsWith "died:") with
     | some d =>
       let status := (((d.drop 5).toString.splitOn "@").head?.getD "0")
